@@ -127,6 +127,18 @@ def instSubst (g : Fn) (tf : Ty) : Option Subst :=
   | some σ => if tyBeq (substTy σ (fnTy g)) tf then some σ else none
   | none => none
 
+/-- the array / vector builtins, judged on the SHAPE of the argument types and the result type of the call
+    (their schemes are polymorphic in the element type and, for arrays, in the length) -/
+def polyOk (f : String) (argTys : List Ty) (ty : Ty) : Bool :=
+  match f, argTys with
+  | "array_get", [.array _ e, .int _ _] => tyBeq ty e
+  | "array_set", [.array n e, .int _ _, e'] => tyBeq e e' && tyBeq ty (.array n e)
+  | "vec_new", [] => (match ty with | .vec _ => true | _ => false)
+  | "vec_push", [.vec e, e'] => tyBeq e e' && tyBeq ty (.vec e)
+  | "vec_get", [.vec e, .int _ _] => tyBeq ty e
+  | "vec_len", [.vec _] => tyBeq ty (.int 32 true)
+  | _, _ => false
+
 /-- a top-level function used as a value (or as a callee) at the annotation `tf` -/
 def fnValOk (P : Prog) (f : String) (tf : Ty) : Bool :=
   match P.findFn f with
@@ -209,7 +221,7 @@ def okE (S : Sig) (P : Prog) (Γ : TyEnv) (K : Know) : Expr → Bool
   | .tag _ _ => false
   | .constr c ty args => ctorTyOk c ty && okL S P Γ K args
   | .tuple _ items => okL S P Γ K items
-  | .array _ _ => false
+  | .array _ items => okL S P Γ K items
   | .closure _ ps body => okE S P (bindAll ps Γ) [] body
   | .letE x v b => okE S P Γ K v && okE S P ((x, getTy v) :: Γ) (dropK x K) b
   | .matchE _ s arms d =>
@@ -229,6 +241,9 @@ def okE (S : Sig) (P : Prog) (Γ : TyEnv) (K : Know) : Expr → Bool
     okL S P Γ K args &&
       ((match f with
         | .var fn tf => (lookupVar Γ fn).isNone && builtinOk P fn tf && tyBeq tf (.func (getTys args) ty)
+        | _ => false) ||
+       (match f with
+        | .var fn _ => (lookupVar Γ fn).isNone && (P.findFn fn).isNone && polyOk fn (getTys args) ty
         | _ => false) ||
        (okE S P Γ K f && tyBeq (getTy f) (.func (getTys args) ty)))
   | .toDyn _ _ _ _ => false
@@ -262,6 +277,8 @@ inductive VT (S : Sig) (P : Prog) : Val → Ty → Prop
       isEnumTy t = true → enumFieldTys S n idx t = some fts → VTs S P args fts → VT S P (.enumV n idx args) t
   | structV {n : String} {fs : List Val} {t : Ty} {fts : List Ty} :
       isStructTy t = true → fieldTys S (.struct n) t = some fts → VTs S P fs fts → VT S P (.structV n fs) t
+  | array {vs : List Val} {e : Ty} {n : Nat} : VTall S P vs e → vs.length = n → VT S P (.array vs) (.array n e)
+  | vec {vs : List Val} {e : Ty} : VTall S P vs e → VT S P (.vec vs) (.vec e)
   /-- a closure: its code is `Wt`-consistent and in the fragment under a typing `Γ` of the captured
       environment, at the instantiation `θ` of the activation that built it -/
   | closure {θ : Subst} {ρ : Env} {Γ : TyEnv} {pts : List (String × Ty)} {body : Expr} :
@@ -273,6 +290,9 @@ inductive VT (S : Sig) (P : Prog) : Val → Ty → Prop
 inductive VTs (S : Sig) (P : Prog) : List Val → List Ty → Prop
   | nil : VTs S P [] []
   | cons {v : Val} {vs : List Val} {t : Ty} {ts : List Ty} : VT S P v t → VTs S P vs ts → VTs S P (v :: vs) (t :: ts)
+inductive VTall (S : Sig) (P : Prog) : List Val → Ty → Prop
+  | nil {e : Ty} : VTall S P [] e
+  | cons {v : Val} {vs : List Val} {e : Ty} : VT S P v e → VTall S P vs e → VTall S P (v :: vs) e
 /-- `ET S P θ ρ Γ`: same names in the same order, values of the types of `Γ` instantiated by `θ` -/
 inductive ET (S : Sig) (P : Prog) : Subst → Env → TyEnv → Prop
   | nil {θ : Subst} : ET S P θ [] []
@@ -297,7 +317,7 @@ partial def whyE (S : Sig) (P : Prog) (Γ : TyEnv) (K : Know) : Expr → Option 
   | .tag _ _ => some "tag"
   | .constr c ty args => if ctorTyOk c ty then whyL S P Γ K args else some "constr:kind"
   | .tuple _ items => whyL S P Γ K items
-  | .array _ _ => some "array"
+  | .array _ items => whyL S P Γ K items
   | .closure _ ps body => whyE S P (bindAll ps Γ) [] body
   | .letE x v b => (whyE S P Γ K v).orElse fun _ => whyE S P ((x, getTy v) :: Γ) (dropK x K) b
   | .matchE _ s arms d =>
@@ -320,7 +340,8 @@ partial def whyE (S : Sig) (P : Prog) (Γ : TyEnv) (K : Know) : Expr → Option 
   | .call ty f args =>
     (whyL S P Γ K args).orElse fun _ =>
       let direct := match f with
-        | .var fn tf => (lookupVar Γ fn).isNone && builtinOk P fn tf && tyBeq tf (.func (getTys args) ty)
+        | .var fn tf => (lookupVar Γ fn).isNone &&
+            ((builtinOk P fn tf && tyBeq tf (.func (getTys args) ty)) || ((P.findFn fn).isNone && polyOk fn (getTys args) ty))
         | _ => false
       if direct then none else
       (match f with
